@@ -1141,12 +1141,19 @@ func checkC11(w *World, r *Report) {
 				}
 				if strings.HasPrefix(p, "call:Context.Done(call:context.WithTimeout(") && strings.Contains(p, "P0.timeout)#0") {
 					iDone = i
+					// the clock is the only thing that ends the wait early: the parent of the timeout context cannot be
+					// cancelled (a context inherited from the requesting actor ends the wait before the timeout, or at once)
+					parent := p[len("call:Context.Done(call:context.WithTimeout("):]
+					if !strings.HasPrefix(parent, "call:context.Background(),") && !strings.HasPrefix(parent, "call:context.TODO(),") {
+						okSel = false
+						detail = "the timeout context derives from " + strings.SplitN(parent, ",", 2)[0] + ", not from context.Background(): when that context is cancelled (or has a shorter deadline) Result gives up before the timeout has passed, although a reply may still arrive in time"
+					}
 				}
 			}
 			if iRes < 0 || iDone < 0 {
 				okSel = false
 				detail = "the select does not receive from r.result and from the Done() channel of WithTimeout(_, r.timeout)"
-			} else {
+			} else if okSel {
 				// returns: on case iRes -> (received value, nil); on case iDone -> (nil, ctx.Err())
 				caseEdges := func(i int) []Edge {
 					pos, _ := g.CondEdges(func(v ssa.Value) (bool, bool) {
@@ -1270,8 +1277,10 @@ func checkC11(w *World, r *Report) {
 			return o.Rule == "C01.R1" && strings.Contains(o.Key, ").send->")
 		})
 		importRules(w, r, checkC09, "C09", "C11.R7", func(o *Obligation) bool {
-			return o.Rule == "C09.R2" && strings.Contains(o.Key, ").send->")
+			return o.Rule == "C09.R2" && strings.Contains(o.Key, ").send->") || o.Rule == "C09.R1" || o.Rule == "C09.R6"
 		})
+		// (C09.R1/R6: the local delivery step does nothing but deliver or publish one dead letter: it takes no lock of
+		// the registry across the hand-off and sends nothing back to the sender, which for a request is the response PID)
 		importRules(w, r, checkC15, "C15", "C11.R7", func(o *Obligation) bool { return o.Rule == "C15.R8" })
 	}
 	// R6: when Result returns, the response PID is gone: Registry.Remove deletes under the write lock before it returns
@@ -1511,7 +1520,12 @@ func checkC12(w *World, r *Report) {
 	importRules(w, r, checkC10, "C10", "C12.R6", func(o *Obligation) bool { return o.Rule == "C10.R2" })
 	importRules(w, r, checkC01, "C01", "C12.R5", func(o *Obligation) bool { return o.Rule == "C01.R4" })
 	// (and across a restart: the unprocessed rest of the batch is replayed before newer messages are taken)
-	importRules(w, r, checkC05, "C05", "C12.R5", func(o *Obligation) bool { return o.Rule == "C05.R2" && strings.Contains(o.Key, "replay-before-inbox") })
+	importRules(w, r, checkC05, "C05", "C12.R5", func(o *Obligation) bool {
+		return o.Rule == "C05.R2" && (strings.Contains(o.Key, "replay-before-inbox") || strings.Contains(o.Key, "clears-replayed-buffer") || strings.Contains(o.Key, "restart-buffer-dropped")) ||
+			o.Rule == "C05.R3" && strings.Contains(o.Key, "buffer-from-cursor")
+	})
+	// a subscriber that is poisoned gracefully handles what is queued behind the pill once, and nothing twice (C07.R3)
+	importRules(w, r, checkC07, "C07", "C12.R5", func(o *Obligation) bool { return o.Rule == "C07.R3" && strings.Contains(o.Key, "drain") })
 	// R4 lifecycle events
 	pr := w.findProcRoles()
 	if !pr.fail(r, "C12.R4") {
